@@ -488,4 +488,107 @@ theorem sendExt_no_panic (accts : List Addr) (hn : accts.Nodup) (R : Addr) (s : 
           · simp only [hcond, ite_false] at h3; cases h3
         · simp
 
+
+theorem sendIf_some_of (c : Prop) [Decidable c] (s : St) (a b : Addr) (n : Int)
+    (h : ¬ c ∨ (s.locked a ≤ s.bal a ∧ n ≤ s.bal a - s.locked a)) : ∃ s', sendIf c s a b n = some s' := by
+  unfold sendIf bankSend
+  by_cases hc : c
+  · simp only [hc, ite_true]
+    cases h with
+    | inl h => exact absurd hc h
+    | inr h =>
+      have : ¬ (s.bal a < s.locked a ∨ s.bal a - s.locked a < n) := by omega
+      simp only [this, ite_false]; exact ⟨_, rfl⟩
+  · simp only [hc, ite_false]; exact ⟨_, rfl⟩
+
+theorem sendIf_some_imp (c : Prop) [Decidable c] (s s' : St) (a b : Addr) (n : Int)
+    (h : sendIf c s a b n = some s') : ¬ c ∨ (s.locked a ≤ s.bal a ∧ n ≤ s.bal a - s.locked a) := by
+  unfold sendIf bankSend at h
+  by_cases hc : c
+  · simp only [hc, ite_true] at h
+    split at h
+    · cases h
+    · right; omega
+  · left; exact hc
+
+/-- "An operation fails exactly when bank rules require it": between distinct non-reserve parties,
+    from a state satisfying the invariant, `sendExtendedCoins` succeeds iff the sender's spendable
+    extended balance covers the amount. -/
+theorem sendExt_ok_iff (accts : List Addr) (hn : accts.Nodup) (R : Addr) (s : St) (frm to : Addr) (x : Int)
+    (hne : frm ≠ to) (hfR : frm ≠ R) (htR : to ≠ R) (hf : frm ∈ accts) (ht : to ∈ accts) (hx : 0 ≤ x)
+    (hlock : s.locked frm ≤ s.bal frm) (hRlock : s.locked R = 0)
+    (h : Inv accts R s) :
+    (∃ s', sendExt R s frm to x = .ok s') ↔ x ≤ extSpendable R s frm := by
+  obtain ⟨hfr, hr0, hr1, hres⟩ := h
+  have hsf := hfr frm
+  have hrf := hfr to
+  have hm0 : 0 ≤ x % C := Int.emod_nonneg x (by decide)
+  have hm1 : x % C < C := Int.emod_lt_of_pos x (by decide)
+  have hd0 : 0 ≤ x / C := Int.ediv_nonneg hx (by decide)
+  have hRf : R ≠ frm := fun e => hfR e.symm
+  have hRt : R ≠ to := fun e => htR e.symm
+  have hne' : ¬ to = frm := fun e => hne e.symm
+  have hsum := sumOver_ge_two accts s.frac (fun a => (hfr a).1) hn frm to hne hf ht
+  have hsp : extSpendable R s frm = (s.bal frm - s.locked frm) * C + s.frac frm := by
+    unfold extSpendable
+    have : ¬ s.bal frm < s.locked frm := by omega
+    simp only [hfR, ite_false, this]
+  rw [hsp]
+  unfold sendExt
+  simp only [hne, ite_false]
+  constructor
+  · -- success ⇒ sufficient funds
+    rintro ⟨s', hok⟩
+    split at hok
+    · cases hok
+    · rename_i s1 h1
+      split at hok
+      · cases hok
+      · rename_i s2 h2
+        have c1 := sendIf_some_imp _ s s1 frm to _ h1
+        have c2 := sendIf_some_imp _ s1 s2 frm R 1 h2
+        obtain ⟨-, -, -, b1⟩ := bankSendIf _ s s1 frm to frm _ h1
+        have l1 := sendIf_locked _ s s1 frm to _ h1
+        simp only [hne, hne', and_false, and_true, ite_false] at b1
+        rw [l1, b1] at c2
+        by_cases hb : s.frac frm - x % C < 0 <;> by_cases hc : s.frac to + x % C ≥ C <;>
+          simp only [hb, hc, ite_true, ite_false, and_self, and_true, and_false, true_and, false_and,
+            not_true_eq_false, not_false_eq_true, gt_iff_lt, false_or, true_or, or_false, or_true] at c1 c2 <;>
+          simp only [C_val] at * <;> omega
+  · -- sufficient funds ⇒ success
+    intro hsuff
+    have e1 : ∃ s1, sendIf ((if s.frac frm - x % C < 0 ∧ s.frac to + x % C ≥ C then x / C + 1 else x / C) > 0)
+        s frm to (if s.frac frm - x % C < 0 ∧ s.frac to + x % C ≥ C then x / C + 1 else x / C) = some s1 := by
+      apply sendIf_some_of
+      by_cases hb : s.frac frm - x % C < 0 <;> by_cases hc : s.frac to + x % C ≥ C <;>
+        simp only [hb, hc, ite_true, ite_false, and_self, and_true, and_false, true_and, false_and,
+          not_true_eq_false, not_false_eq_true, gt_iff_lt, false_or, true_or, or_false, or_true] <;>
+        simp only [C_val] at * <;> omega
+    obtain ⟨s1, h1⟩ := e1
+    obtain ⟨-, -, -, b1⟩ := bankSendIf _ s s1 frm to frm _ h1
+    obtain ⟨-, -, -, bR1⟩ := bankSendIf _ s s1 frm to R _ h1
+    have l1 := sendIf_locked _ s s1 frm to _ h1
+    simp only [hne, hne', hRf, hRt, and_false, and_true, ite_false] at b1 bR1
+    have e2 : ∃ s2, sendIf (s.frac frm - x % C < 0 ∧ ¬ s.frac to + x % C ≥ C) s1 frm R 1 = some s2 := by
+      apply sendIf_some_of
+      rw [l1, b1]
+      by_cases hb : s.frac frm - x % C < 0 <;> by_cases hc : s.frac to + x % C ≥ C <;>
+        simp only [hb, hc, ite_true, ite_false, and_self, and_true, and_false, true_and, false_and,
+          not_true_eq_false, not_false_eq_true, gt_iff_lt, false_or, true_or, or_false, or_true] <;>
+        simp only [C_val] at * <;> omega
+    obtain ⟨s2, h2⟩ := e2
+    obtain ⟨-, -, -, bR2⟩ := bankSendIf _ s1 s2 frm R R 1 h2
+    have l2 := sendIf_locked _ s1 s2 frm R 1 h2
+    simp only [hRf, and_false, and_true, ite_false] at bR2
+    have e3 : ∃ s3, sendIf (¬ s.frac frm - x % C < 0 ∧ s.frac to + x % C ≥ C) s2 R to 1 = some s3 := by
+      apply sendIf_some_of
+      rw [l2, l1, hRlock, bR2, bR1]
+      by_cases hb : s.frac frm - x % C < 0 <;> by_cases hc : s.frac to + x % C ≥ C <;>
+        simp only [hb, hc, ite_true, ite_false, and_self, and_true, and_false, true_and, false_and,
+          not_true_eq_false, not_false_eq_true, gt_iff_lt, false_or, true_or, or_false, or_true] <;>
+        simp only [C_val] at * <;> omega
+    obtain ⟨s3, h3⟩ := e3
+    simp only [h1, h2, h3]
+    exact ⟨_, rfl⟩
+
 end KV.PB
